@@ -29,7 +29,7 @@ MANIFEST = {
     "note": "Trusted: Lean kernel + standard axioms; translator T2 (what is a view / an in-place operation / a global-RNG use is a "
             "whitelist, validated each run by observed ⊆ predicted); the IR abstracts values away (only aliasing and writes). "
             "Instance state (self.*) is explicit state, not hidden state; references stored inside Python lists/dicts are not "
-            "tracked statically (dynamic run only). Batch-equals-items is decided by C09/C15/C16/C17.",
+            "tracked statically (dynamic run only). Batch-equals-items is evaluated dynamically here (stack_table: every stacking function, batch shapes incl. odd lengths >= 3 and nested axes, C-ordered and strided) and, with models, by C09/C15/C16/C17.",
     "technique": "Lean 4 soundness proof of an abstract interpreter + kernel-evaluated per-function obligations on terms regenerated "
                  "from source + instrumented dynamic replay",
 }
@@ -442,15 +442,219 @@ def method_table(chk, rec):
                      {"class": cls.__name__, "kwargs": kw})
 
 
+# ---------------------------------------------------------------------------------------------------------------------
+# round 4: seeded entry points over the boundary values of the seed domain; stacks against their items
+
+SEEDED_CALLS = [("aotools.turbulence.phasescreen.ft_phase_screen", [0.1, 8, 0.05, 20., 0.01], "seed"),
+                ("aotools.turbulence.phasescreen.ft_sh_phase_screen", [0.1, 8, 0.05, 20., 0.01], "seed"),
+                ("aotools.turbulence.infinitephasescreen.PhaseScreenVonKarman", [6, 0.1, 0.2, 20.], "random_seed"),
+                ("aotools.turbulence.infinitephasescreen.PhaseScreenKolmogorov", [6, 0.1, 0.2, 20.], "random_seed")]
+
+
+def seed_arguments(rng):
+    """(label, value class, factory) of seed arguments: the value 0 and other boundary values of the seed domain in the forms a
+    caller may hold them (Python int / bool, NumPy integer scalars, a list or array of words, a SeedSequence).  Generator objects
+    are left out here: they are consumed by the call, i.e. explicit state of the caller, C06's subject."""
+    out = []
+
+    def add(form, v, make):
+        cls = str(v) if v <= 2 else ("<2^32" if v < 2 ** 32 else "<2^53" if v < 2 ** 53 else "<2^64" if v < 2 ** 64 else ">=2^64")
+        out.append(("%s:%s" % (form, cls), v, make))
+    for v in (0, 1):
+        add("int", v, lambda v=v: int(v))
+        add("bool", v, lambda v=v: bool(v))
+        for t in ("uint8", "int32", "int64", "uint64"):
+            add(t, v, lambda v=v, t=t: getattr(numpy, t)(v))
+        add("list", v, lambda v=v: [int(v)])
+        add("list2", v, lambda v=v: [0, int(v)])
+        add("array", v, lambda v=v: numpy.array([v], dtype=numpy.uint32))
+        add("seedseq", v, lambda v=v: numpy.random.SeedSequence(int(v)))
+    big = rng.getrandbits(rng.randint(65, 128)) | (1 << 64)
+    for v in (2, 2 ** 32 - 1, 2 ** 32, 2 ** 53 + 1, 2 ** 63 - 1, 2 ** 64 - 1, 2 ** 64, big):
+        add("int", v, lambda v=v: int(v))
+        if v < 2 ** 64:
+            add("uint64", v, lambda v=v: numpy.uint64(v))
+    return out
+
+
+def seeded_table(chk, rec):
+    """every seeded entry point, for every seed argument above: two calls with equal arguments — with an unseeded call, a call
+    with another seed and a re-seeding of NumPy's global generator in between — return equal results; list / array seed
+    arguments are left as they were"""
+    seeds = seed_arguments(chk.rng)
+    for path, args, sname in SEEDED_CALLS:
+        fn = resolve(path)
+        is_class = inspect.isclass(fn)
+
+        def call(seed):
+            with numpy.errstate(all="ignore"), contextlib.redirect_stdout(io.StringIO()):
+                r = fn(*copy.deepcopy(args), **{sname: seed})
+                if not is_class:
+                    return [numpy.array(r, copy=True)]
+                out = [numpy.array(r.scrn, copy=True)]
+                r.add_row()
+                return out + [numpy.array(r.scrn, copy=True)]
+        for label, v, make in seeds:
+            chk.oracle_cases += 1
+            chk.case(("seeded", path, label, str(v)), sample={"call": path, "seed": label, "value": str(v)} if (label, path) == ("int:0", SEEDED_CALLS[0][0]) else None)
+            chk.count("dynamic:seeded:" + label.split(":")[0])
+            rep = {"function": path, "args": args, "seed_argument": sname, "seed_form": label, "seed_value": str(v)}
+            try:
+                numpy.random.default_rng(make())
+            except Exception:
+                chk.count("dynamic:seeded:rejected-by-numpy")          # not a seed at all: outside the domain
+                continue
+            s1 = make()
+            keep = copy.deepcopy(s1)
+            try:
+                first = call(s1)
+                call(None)
+                call(int(v) + 1)
+                numpy.random.seed(chk.rng.randint(0, 10 ** 6))
+                second = call(copy.deepcopy(keep))
+            except Exception as ex:
+                chk.fail("raises:%s:seed=%s:%s" % (path, label, type(ex).__name__), "%s raised %r for the seed %s (%s), which "
+                         "numpy.random.default_rng accepts" % (path, ex, v, label), rep)
+                continue
+            if not _equal(first, second, rtol=1e-9):
+                chk.fail("nondeterministic:%s:seed=%s" % (path, label), "%s called twice with equal arguments (%s = %r, i.e. the seed "
+                         "value %s) returned different results" % (path, sname, keep, v), rep)
+            if isinstance(keep, (list, numpy.ndarray)) and not (type(s1) is type(keep) and numpy.array_equal(s1, keep)
+                                                                and getattr(s1, "dtype", None) == getattr(keep, "dtype", None)):
+                chk.fail("mutates:%s:%s" % (path, sname), "%s modified the %s it was given as `%s`" % (path, type(keep).__name__, sname), rep)
+
+
+BATCH_SHAPES = [(1,), (2,), (3,), (4,), (5,), (7,), (2, 3), (3, 2), (3, 3), (1, 3), (5, 1), (2, 3, 2)]
+
+
+def stack_table(nprng):
+    """the functions that accept stacks / leading batch axes.  Per row: path, builder(batch) -> positional arguments with the
+    stacked array FIRST built for that batch shape, keyword arguments, where the batch axes sit in the result ('lead': result[idx];
+    'after0': result[:, idx], the centroiders' (2, ...) convention), the highest batch rank the function documents (None = any),
+    and whether a single item is passed as a one-item stack (functions documented for rank-3 input only).
+    Real-input transforms get EVEN signal lengths only (odd ones: open finding real:irft∘rft:odd of C09)."""
+    def real(*item):
+        return lambda b: [nprng.normal(size=b + item)]
+
+    def cplx(*item):
+        return lambda b: [nprng.normal(size=b + item) + 1j * nprng.normal(size=b + item)]
+
+    def pos(*item):
+        return lambda b: [nprng.integers(1, 50, size=b + item).astype(float)]
+
+    def sep(*item):
+        return lambda b: [nprng.uniform(0.05, 5., size=b + item)]
+    ref = nprng.integers(1, 50, size=(8, 8)).astype(float)
+    mask = numpy.array([[1, 0, 1], [1, 1, 0], [0, 1, 0]])
+    FT, CE = "aotools.fouriertransform.", "aotools.image_processing.centroiders."
+    T = []
+    for n in (5, 8, 16):
+        T += [(FT + "ft", (lambda f: lambda b: f(b) + [0.25])(cplx(n)), {}, "lead", None, False),
+              (FT + "ft", (lambda f: lambda b: f(b) + [0.25])(real(n)), {}, "lead", None, False),
+              (FT + "ift", (lambda f: lambda b: f(b) + [0.25])(cplx(n)), {}, "lead", None, False)]
+    for n in (8, 16):
+        T += [(FT + "rft", (lambda f: lambda b: f(b) + [0.25])(real(n)), {}, "lead", None, False),
+              (FT + "irft", (lambda f: lambda b: f(b) + [0.25])(cplx(n // 2 + 1)), {}, "lead", None, False)]
+    for ny, nx in ((5, 5), (8, 8), (6, 8)):
+        T += [(FT + "ft2", (lambda f: lambda b: f(b) + [0.25])(cplx(ny, nx)), {}, "lead", None, False),
+              (FT + "ift2", (lambda f: lambda b: f(b) + [0.25])(cplx(ny, nx)), {}, "lead", None, False)]
+    T += [(FT + "rft2", (lambda f: lambda b: f(b) + [0.25])(real(8, 8)), {}, "lead", None, False),
+          (FT + "irft2", (lambda f: lambda b: f(b) + [0.25])(cplx(8, 5)), {}, "lead", None, False),
+          (CE + "centre_of_gravity", pos(8, 8), {}, "after0", None, False),
+          (CE + "centre_of_gravity", pos(7, 9), {"threshold": 0.25}, "after0", None, False),
+          (CE + "brightest_pixel", (lambda f: lambda b: f(b) + [0.3])(pos(8, 8)), {}, "after0", None, False),
+          (CE + "quadCell", pos(2, 2), {}, "after0", None, False),
+          (CE + "correlation_centroid", (lambda f: lambda b: f(b) + [ref])(pos(8, 8)), {"threshold": 0.1}, "after0", 1, True),
+          ("aotools.interpolation.binImgs", (lambda f: lambda b: f(b) + [2])(pos(8, 8)), {}, "lead", None, False),
+          ("aotools.interpolation.binImgs", (lambda f: lambda b: f(b) + [4])(pos(8, 4)), {}, "lead", None, False),
+          ("aotools.turbulence.temporal_ps.calc_slope_temporalps", real(16, 6), {}, "lead", None, False),
+          ("aotools.wfs.wfslib.make_subaps_2d", (lambda f: lambda b: f(b) + [mask])(real(2, 5)), {}, "lead", 1, True),
+          # element-wise functions of a separation array: a stack of separation vectors
+          ("aotools.turbulence.slopecovariance.structure_function_vk", (lambda f: lambda b: f(b) + [0.2, 25.])(sep(6)), {}, "lead", None, False),
+          ("aotools.turbulence.slopecovariance.structure_function_kolmogorov", (lambda f: lambda b: f(b) + [0.2])(sep(6)), {}, "lead", None, False),
+          ("aotools.turbulence.turb.phase_covariance", (lambda f: lambda b: f(b) + [0.2, 25.])(sep(6)), {}, "lead", None, False),
+          ("aotools.functions.karhunenLoeve.stf_vonKarman", (lambda f: lambda b: f(b) + [3.])(sep(6)), {}, "lead", None, False),
+          ("aotools.functions.karhunenLoeve.stf_kolmogorov", sep(6), {}, "lead", None, False)]
+    return T
+
+
+def stacks(chk, rec, quick, observed):
+    """'functions that accept stacks or leading batch axes return, per item, what the single-item call returns': every row of
+    stack_table on batch shapes with odd and even lengths and nested batch axes, the stack C-ordered and as a strided view;
+    each item of the stacked result against the call on that item alone (a contiguous copy of it)"""
+    nprng = numpy.random.default_rng(chk.rng.getrandbits(32))
+    table = stack_table(nprng)
+    reported = set()
+    for path, build, kw, where, max_rank, as_stack1 in table:
+        fn = resolve(path)
+        shapes = [b for b in BATCH_SHAPES if max_rank is None or len(b) <= max_rank]
+        if quick and len(shapes) > 7:
+            shapes = [(3,), (5,)] + chk.rng.sample([b for b in shapes if b not in ((3,), (5,))], 5)
+        for batch in shapes:
+            args = build(batch)
+            for lay, stack in layouts(args[0], chk.rng):
+                if lay == "F":
+                    continue
+                chk.oracle_cases += 1
+                chk.case(("stack", path, batch, lay, tuple(args[0].shape), json.dumps(kw, sort_keys=True)),
+                         sample={"call": path, "stack_shape": list(args[0].shape), "batch": list(batch), "layout": lay} if path.endswith(".rft") and batch == (3,) else None)
+                odd = any(n >= 3 and n % 2 for n in batch)
+                chk.count("dynamic:stack:rank%d:%s" % (len(batch), "odd" if odd else "even"))
+                key = "stack:%s:rank%d:%s" % (path, len(batch), "odd" if odd else "even")
+                rep = {"function": path, "stack_shape": list(args[0].shape), "batch": list(batch), "layout": lay, "kwargs": kw,
+                       "other_args": [a if not isinstance(a, numpy.ndarray) else a.tolist() for a in args[1:]], "stack": args[0].tolist() if args[0].size <= 400 else None}
+                try:
+                    with numpy.errstate(all="ignore"), contextlib.redirect_stdout(io.StringIO()):
+                        whole = fn(stack, *copy.deepcopy(args[1:]), **copy.deepcopy(kw))
+                        whole = whole if isinstance(whole, tuple) else (whole,)
+                        worst, bad = 0., None
+                        for idx in numpy.ndindex(*batch):
+                            if as_stack1:
+                                item = numpy.array(args[0][idx[0]:idx[0] + 1], copy=True)
+                                sel = (slice(idx[0], idx[0] + 1),)
+                            else:
+                                item = numpy.array(args[0][idx], copy=True)
+                                sel = idx
+                            one = fn(item, *copy.deepcopy(args[1:]), **copy.deepcopy(kw))
+                            one = one if isinstance(one, tuple) else (one,)
+                            for w, o in zip(whole, one):
+                                w = numpy.asarray(w)[sel if where == "lead" else (slice(None),) + sel]
+                                o = numpy.asarray(o)
+                                if w.shape != o.shape:
+                                    worst, bad = numpy.inf, bad or (idx, "shape %s instead of %s" % (w.shape, o.shape))
+                                    continue
+                                scale = max(float(numpy.abs(o).max()) if o.size else 0., 1e-300)
+                                err = float(numpy.abs(w - o).max()) / scale if o.size else 0.
+                                err = err if err == err else numpy.inf
+                                if not numpy.array_equal(numpy.isnan(w), numpy.isnan(o)):
+                                    err = numpy.inf
+                                worst = max(worst, err)
+                                if err > 1e-9 and bad is None:
+                                    bad = (idx, "relative difference %.3g" % err)
+                except Exception as ex:
+                    chk.fail("raises:" + key, "%s raised %r on a stack of shape %s (batch %s, %s)" % (path, ex, args[0].shape, batch, lay), rep)
+                    continue
+                observed[0] = max(observed[0], worst if worst < 1e-9 else 0.)
+                if bad is not None and key not in reported:          # one concrete failing stack per (function, batch rank, parity)
+                    reported.add(key)
+                    chk.fail(key, "%s on a %s stack of shape %s: item %s of the result differs from the call on that item alone (%s)"
+                             % (path, lay, tuple(args[0].shape), bad[0], bad[1]), dict(rep, item=list(bad[0])))
+
+
 def run(chk):
     quick = chk.tier == "quick"
     chk.rule = ("static: one kernel-checked obligation per public function on the regenerated effect term; dynamic: instrumented "
                 "replay of the repository's test-suite and of a call table (arrays C-ordered, Fortran-ordered and strided views); "
-                "a case = one (function, layout, kwargs) of the table; test-suite calls are counted in input_distribution")
+                "a case = one (function, layout, kwargs) of the table; test-suite calls are counted in input_distribution; "
+                "seeded entry points (finite and infinite screens) twice on equal seed arguments over boundary seed values and forms; "
+                "stack-accepting functions on batch shapes (1)..(7),(2,3),(3,2),(3,3),(1,3),(5,1),(2,3,2) against their items")
     chk.assumptions = ["T2's whitelists of view-returning / in-place / global-RNG operations (validated: observed mutations ⊆ predicted)",
                        "instance attributes are explicit state; references kept inside Python containers are not tracked statically",
                        "'returns equal results' is compared with rel. tol 1e-12 on floats (NumPy reductions are alignment-dependent at the ulp level)",
-                       "batch-equals-items clause: decided by C09 (ft stacks), C15 (centroider stacks), C16 (binImgs stacks), C17 (axis)"]
+                       "batch-equals-items clause: proved / modelled in C09 (ft stacks), C15 (centroider stacks), C16 (binImgs stacks), C17 (axis); "
+                       "sampled here (stack_table: rel. 1e-9 per item, batch shapes with odd lengths >= 3 and nested batch axes, C-ordered and strided)",
+                       "seeded entry points: equal results for equal seed arguments sampled over the boundary values of the seed domain (0, 1, "
+                       "2^32-1, 2^32, 2^53+1, 2^63-1, 2^64-1, 2^64, a random 65..128-bit value) held as int/bool/NumPy scalars/list/array/SeedSequence"]
     # ---- static side
     try:
         src, meta = T2.translate(common.REPO)
@@ -486,6 +690,10 @@ def run(chk):
     public = instrument(rec)
     dynamic(chk, rec, public, quick)
     method_table(chk, rec)
+    seeded_table(chk, rec)
+    observed = [0.]
+    stacks(chk, rec, quick, observed)
+    chk.notes.append("stack vs items: largest relative difference observed below the 1e-9 tolerance: %.3g" % observed[0])
     chk.count("dynamic:functions-exercised", len([q for q in rec.calls if rec.calls[q]]))
     never = sorted(q for q in (meta or {}) if q not in rec.calls)
     chk.notes.append("public functions never exercised dynamically: %s" % ", ".join(never[:40]))
